@@ -7,7 +7,8 @@ ops
   {"op":"split","form":"dict","eqs":[[name,[grid,…]],…],"vars":…}
       → {"err":…} | {"singular":true} | {"S":…,"rhs":…,"bs":…,"Asp":…,"pcols":…,"scols":…,"eqidx":…,"eqidx_asis":…}
   {"op":"expand","x":[q,…]} | {"op":"expand","solve":true}
-      → {"err":"ValueError"} | {"skip":…} | {"X":[q,…]} (+ "full_ok" for solve)
+      → {"err":"ValueError"} | {"skip":…} | {"X":[q,…]}
+No certificate is computed here: that the answers solve the full system is `schurSolve_solves_full` (Props).
 -/
 import PorepyVerif.Common.Wire
 import PorepyVerif.C07.Model
@@ -20,8 +21,8 @@ structure St where
   r : Vec := []
   /-- `_Schur_complement` (outer `none`: never assembled; inner `none`: last block was singular) -/
   stored : Option (Option Stored) := none
-  /-- reduced system and the full system it was derived from (for `solve`) -/
-  last : Option (Mat × Vec × Mat × Vec) := none
+  /-- reduced system of the last assembly (for `solve`) -/
+  last : Option (Mat × Vec) := none
 
 def jPair {α β : Type} (f : Json → R α) (g : Json → R β) (j : Json) : R (α × β) :=
   match j with
@@ -34,9 +35,6 @@ def jTriple (j : Json) : R Var := do
   | _ => throw "not a triple"
 
 def ofMat (m : Mat) : Json := ofList ofRats m
-
-def vecEq (a b : Vec) : Bool := a.length == b.length && (List.zipWith (fun x y => x == y) a b).all id
-def matEq (a b : Mat) : Bool := a.length == b.length && (List.zipWith vecEq a b).all id
 
 /-- `assembled_equation_indices` as the code leaves it: the `assemble(equations=[name])` calls of the
     secondary loop overwrite the primary-block indices stored just before, so that after the call
@@ -56,6 +54,8 @@ def doSplit (st : St) (j : Json) : R (St × Json) := do
   let items : List VarItem := items.map (fun p => ⟨p.1, p.2⟩)
   -- _parse_equations
   if !parseOk st.eqs req then return (st, err "ValueError")
+  -- _gridbased_equation_complement
+  if !complementOk st.eqs req then return (st, err "ValueError")
   let blocks := varBlocks 0 0 st.vars
   let active := parseVars blocks items
   let pcols := primCols active
@@ -68,20 +68,14 @@ def doSplit (st : St) (j : Json) : R (St × Json) := do
   -- sps.vstack of an empty list of secondary blocks
   if numSecBlocks req 0 st.eqs == 0 then return (st, err "ValueError")
   if srows.length != scols.length then return (st, err "AssertionError")
-  let b := blocksOf st.J st.r prows srows pcols scols
-  let ns := scols.length
-  match inverse b.Ass ns with
+  match assembleSplit st.J st.r (totalDofs st.vars) prows srows pcols scols with
   | none => return ({ st with stored := some none, last := none }, obj [("singular", .bool true)])
-  | some inv =>
-    if !matEq (matMul b.Ass inv ns) (identity ns) then throw "certificate: Ass * inv != 1"
-    if !matEq (matMul inv b.Ass ns) (identity ns) then throw "certificate: inv * Ass != 1"
-    let (S, rhs) := reduced b inv pcols.length ns
-    let stored : Stored := ⟨inv, b.bs, b.Asp, pcols, scols, totalDofs st.vars⟩
-    let out := obj [("S", ofMat S), ("rhs", ofRats rhs), ("bs", ofRats b.bs), ("Asp", ofMat b.Asp),
-      ("pcols", ofNats pcols), ("scols", ofNats scols),
+  | some sp =>
+    let out := obj [("S", ofMat sp.S), ("rhs", ofRats sp.rhs), ("bs", ofRats sp.stored.bs),
+      ("Asp", ofMat sp.stored.Asp), ("pcols", ofNats pcols), ("scols", ofNats scols),
       ("eqidx", ofList (fun p => Json.arr #[ofNat p.1, ofNats p.2]) (eqIndices req 0 0 st.eqs)),
       ("eqidx_asis", ofList (fun p => Json.arr #[ofNat p.1, ofNats p.2]) (indicesAsCoded req st.eqs))]
-    return ({ st with stored := some (some stored), last := some (S, rhs, st.J, st.r) }, out)
+    return ({ st with stored := some (some sp.stored), last := some (sp.S, sp.rhs) }, out)
 
 def doExpand (st : St) (j : Json) : R (St × Json) := do
   match st.stored with
@@ -91,16 +85,10 @@ def doExpand (st : St) (j : Json) : R (St × Json) := do
     if (fieldD j "solve" (.bool false)) == .bool true then
       match st.last with
       | none => return (st, obj [("skip", .str "no reduced system")])
-      | some (S, rhs, J, r) =>
-        let np := s.pcols.length
-        if S.length != np then return (st, obj [("skip", .str "nonsquare S")])
-        match inverse S np with
-        | none => return (st, obj [("skip", .str "singular S")])
-        | some Sinv =>
-          let xp := mulVec Sinv rhs
-          if !vecEq (mulVec S xp) rhs then throw "certificate: S xp != rhs"
-          let X := expandStored s xp
-          return (st, obj [("X", ofRats X), ("full_ok", .bool (vecEq (mulVec J X) r))])
+      | some (S, rhs) =>
+        match solveReduced S rhs s.pcols.length with
+        | none => return (st, obj [("skip", .str "reduced system not square or singular")])
+        | some xp => return (st, obj [("X", ofRats (expandStored s xp))])
     else
       let x ← fRats j "x"
       if x.length != s.pcols.length then return (st, err "ValueError")
